@@ -8,6 +8,8 @@
 (*              argument (empty for ever after /repo commit 8b219ee)       *)
 (*   model[p]   state of the caller's reusable TargetInput model of        *)
 (*              problem p: "pristine" or "mutated"                         *)
+(*   nested[p]  state of the caller's reusable stream / utility schema     *)
+(*              objects of problem p, handed over inside a plain dict      *)
 (*   w          the wrapper object: loaded problem, channel, cached result *)
 (*   res        what the last call returned: which problem it describes,   *)
 (*              which foreign graph keys it carries, whether it was        *)
@@ -21,14 +23,15 @@ CONSTANTS Probs, Channels, MaxOps, DoEmit,
           EnableCalls, EnableWrapper,   \* which families of operations a configuration explores
           SharedGraphDefault,   \* mutant / old defect: graph sets accumulate in a shared default dict
           MutatesModel,         \* mutant / old defect: a passed TargetInput model is modified in place
-          LoadKeepsCache        \* mutant / old defect: load() keeps the cached result of the previous problem
+          LoadKeepsCache,       \* mutant / old defect: load() keeps the cached result of the previous problem
+          MutatesNested         \* mutant / old defect: schema objects placed in a plain dictionary are modified in place
 
-VARIABLES acc, model, w, res, hist, computed
-vars == <<acc, model, w, res, hist, computed>>
+VARIABLES acc, model, nested, w, res, hist, computed
+vars == <<acc, model, nested, w, res, hist, computed>>
 
 NoRes == [prob |-> 0, foreign |-> {}, cached |-> FALSE, kind |-> "none"]
 
-Init == /\ acc = {} /\ model = [p \in Probs |-> "pristine"]
+Init == /\ acc = {} /\ model = [p \in Probs |-> "pristine"] /\ nested = [p \in Probs |-> "pristine"]
         /\ w = [loaded |-> 0, ch |-> "none", cache |-> 0]
         /\ res = NoRes /\ hist = <<>> /\ computed = 0
 
@@ -40,20 +43,26 @@ Analyse(p, kind) ==
   /\ acc' = IF SharedGraphDefault THEN acc \cup {p} ELSE acc
   /\ computed' = computed + 1
 
-CallDict(p)  == Step(<<"call_dict", p>>)  /\ Analyse(p, "service") /\ UNCHANGED <<model, w>>
-CallUnits(p) == Step(<<"call_units", p>>) /\ Analyse(p, "service") /\ UNCHANGED <<model, w>>
-CallModel(p) == Step(<<"call_model", p>>) /\ Analyse(p, "service") /\ UNCHANGED <<model, w>>      \* a fresh model object
+CallDict(p)  == Step(<<"call_dict", p>>)  /\ Analyse(p, "service") /\ UNCHANGED <<model, nested, w>>
+CallUnits(p) == Step(<<"call_units", p>>) /\ Analyse(p, "service") /\ UNCHANGED <<model, nested, w>>
+CallModel(p) == Step(<<"call_model", p>>) /\ Analyse(p, "service") /\ UNCHANGED <<model, nested, w>>      \* a fresh model object
 CallModelReused(p) ==
   /\ Step(<<"call_model_reused", p>>)
   /\ Analyse(p, "service")
   /\ model' = IF MutatesModel THEN [model EXCEPT ![p] = "mutated"] ELSE model
-  /\ UNCHANGED w
+  /\ UNCHANGED <<nested, w>>
+(* a plain dictionary whose entries are the caller's own (reused) stream / utility schema objects *)
+CallNestedReused(p) ==
+  /\ Step(<<"call_nested_reused", p>>)
+  /\ Analyse(p, "service")
+  /\ nested' = IF MutatesNested THEN [nested EXCEPT ![p] = "mutated"] ELSE nested
+  /\ UNCHANGED <<model, w>>
 
 WLoad(p, ch) ==
   /\ Step(<<"load", p, ch>>)
   /\ w' = [loaded |-> p, ch |-> ch, cache |-> IF LoadKeepsCache THEN w.cache ELSE 0]
   /\ res' = [NoRes EXCEPT !.kind = "load"]
-  /\ UNCHANGED <<acc, model, computed>>
+  /\ UNCHANGED <<acc, model, nested, computed>>
 WTarget ==
   /\ w.loaded # 0
   /\ Step(<<"target">>)
@@ -62,16 +71,16 @@ WTarget ==
           /\ UNCHANGED <<acc, computed, w>>
      ELSE /\ Analyse(w.loaded, "target")
           /\ w' = [w EXCEPT !.cache = w.loaded]
-  /\ UNCHANGED model
+  /\ UNCHANGED <<model, nested>>
 WExport ==
   /\ w.loaded # 0
   /\ Step(<<"export">>)
   /\ IF w.cache # 0
      THEN /\ res' = [prob |-> w.cache, foreign |-> {}, cached |-> TRUE, kind |-> "export"] /\ UNCHANGED <<acc, computed, w>>
      ELSE /\ Analyse(w.loaded, "export") /\ w' = [w EXCEPT !.cache = w.loaded]
-  /\ UNCHANGED model
+  /\ UNCHANGED <<model, nested>>
 
-Next == \/ (EnableCalls /\ \E p \in Probs : CallDict(p) \/ CallUnits(p) \/ CallModel(p) \/ CallModelReused(p))
+Next == \/ (EnableCalls /\ \E p \in Probs : CallDict(p) \/ CallUnits(p) \/ CallModel(p) \/ CallModelReused(p) \/ CallNestedReused(p))
         \/ (EnableWrapper /\ ((\E p \in Probs, ch \in Channels : WLoad(p, ch)) \/ WTarget \/ WExport))
 Spec == Init /\ [][Next]_vars
 
@@ -80,7 +89,7 @@ LastOp == hist[Len(hist)]
 (* C11: the result of every analysis is the fresh-process result of the problem passed in *)
 C11_Pure ==
   (hist # <<>> /\ res.kind = "service") => res.prob = LastOp[2] /\ res.foreign = {}
-C11_InputUnchanged == \A p \in Probs : model[p] = "pristine"
+C11_InputUnchanged == \A p \in Probs : model[p] = "pristine" /\ nested[p] = "pristine"
 C11_NoModuleState  == acc = {}
 (* C16: the wrapper answers for the problem that is loaded, from whichever channel; a repeated target is served from the cache *)
 C16_WrapperDescribesLoaded ==
